@@ -1,5 +1,7 @@
 package main
 
+import "fmt"
+
 func init() {
 	register("C01", propMeta{
 		Explanation: "Structural necessary conditions of 'flat search returns exactly the k nearest live vectors', decided on all paths of the flat index code: admission table of the scan loop (soft delete, id filter, threshold) over every state; ascending comparator; sanitizeK table and its use against the sorted slice; score provenance (Calculate(preprocessed query, stored vector of the same element)); Flush retention and ordering; Add pre-processing order; Remove marks the argument's id.",
@@ -26,6 +28,9 @@ func init() {
 		ruleDistance(r, "C01.DIST") // "each reported score is the metric distance": distance.go is an anchor of this property
 		ruleLimitAutocut(r, "C01")
 		ruleDocumentFilter(r, "C01.FILTER")
+		if ruleBuilders(r, "C01.BLD", k.SearchT) < 8 {
+			r.add("C01.BLD", "floor", "-", "fewer than 8 builder methods on the flat search type", Floor)
+		}
 		r.FloorCheck("C01.ADM", 1)
 		r.FloorCheck("C01.ORD.k", 1)
 		r.FloorCheck("C01.ORD.less", 1)
@@ -63,6 +68,13 @@ func init() {
 		ruleAggregations(r, "C02") // multi-query combination rule: aggregation.go is an anchor of this property
 		ruleLimitAutocut(r, "C02")
 		ruleDocumentFilter(r, "C02.FILTER")
+		nb := 0
+		for _, k := range ks {
+			nb += ruleBuilders(r, "C02.BLD", k.SearchT)
+		}
+		if nb < 40 {
+			r.add("C02.BLD", "floor", "-", fmt.Sprintf("%d builder methods on the five vector search types, floor is 40", nb), Floor)
+		}
 		ruleHNSWResultGate(r, "C02.ADM.hnsw-layer")
 		rulePools(r, "C02.POOL")
 		r.FloorCheck("C02.ADM", 5)
